@@ -215,6 +215,21 @@ class BufferingIterator(collections.abc.Iterator[T]):
         return ret
 
 
+def split_lines_keepends(text):
+    # type: (str) -> List[str]
+    """Split text into its lines, keeping the newlines
+
+    Unlike str.splitlines(keepends=True), only a newline ends a line; form
+    feeds, U+2028 and the other characters str.splitlines() also splits at
+    are ordinary text in a deb822 file.
+    """
+    lines = [line + '\n' for line in text.split('\n')]
+    last = lines.pop()[:-1]
+    if last:
+        lines.append(last)
+    return lines
+
+
 def len_check_iterator(content,  # type: str
                        stream,  # type: Iterable[TE]
                        content_len=None,  # type: Optional[int]
